@@ -115,6 +115,7 @@ def build_inputs(tier):
         for i2 in units:
             indents.append(f"if a:\n{i1}if b:\n{i2}c\n{i1}d\ne\n")
             indents.append(f"if a:\n{i1}b\n{i2}c\n")
+    indents += mutate.indent_histories(r, 150 * N)
     for s in indents:
         for lay in ("id", "crlf", "nofinal"):
             cases.append(("indent", mutate.layout(s, lay, r)))
